@@ -171,3 +171,28 @@ CASES += [
  dict(id='sudoku-commute', kind='silent', file=U, old='.map(|j| format!("_{}_is_{}", i * square + j, k))', new='.map(|j| format!("_{}_is_{}", j + square * i, k))', checks=['C17']),
  dict(id='sudoku-inline-lt', kind='silent', file=U, old='lt + ((l / root) * square + (l % root))', new='(i * root + l / root) * square + (j * root + l % root)', checks=['C17']),
 ]
+
+TT = 'src/truth_table.rs'
+CASES += [
+ dict(id='tte-is-any-wrong', kind='fire', file=TT, old='    pub fn is_any(self) -> bool {\n        self == Self::Any', new='    pub fn is_any(self) -> bool {\n        self == Self::True', expect={'C20': 'HELPER', 'C10': 'HELPER'}),
+ dict(id='bdd-is-true-wrong', kind='fire', file=B, old='    pub fn is_true(&self) -> bool {\n        self == &Self::True', new='    pub fn is_true(&self) -> bool {\n        self == &Self::False', expect={'C20': 'retain', 'C14': 'HELPER'}),
+ dict(id='filter-digit-swap', kind='fire', file=TT, old='"t" | "T" | "1"),', new='"t" | "T" | "0"),', expect={'C10': 'spellings'}),
+ dict(id='label-drops-bound', kind='fire', file=PIO, old='SymbolicBDD::CountableConst(ref v, _, n) => {', new='SymbolicBDD::CountableConst(ref v, _, _) => {', expect={'C14': 'label of CountableConst'}),
+ dict(id='complete-halve-first', kind='fire', file=G, old='(vertices * (vertices - 1)) / 2', new='(vertices / 2) * (vertices - 1)', expect={'C18': 'truncates'}),
+ dict(id='clamp-to-len', kind='fire', file=P, old='let n = i64::try_from(*n).unwrap_or(i64::MAX);', new='let n = i64::try_from(*n).unwrap_or(branches.len() as i64);', expect={'C05': 'CLAMP'}),
+]
+
+CASES += [
+ dict(id='queens-skip-corner-antidiag', kind='silent', file=Q, old='''    for i in 1..n {
+        write!(writer, "[")?;
+        for j in 0..i {
+            write!(writer, "v_{},", n * (n - j) - (i - j))?;''', new='''    for i in 2..n {
+        write!(writer, "[")?;
+        for j in 0..i {
+            write!(writer, "v_{},", n * (n - j) - (i - j))?;''', checks=['C15']),
+ dict(id='queens-skip-two-cell-antidiag', kind='fire', file=Q, old='''    for i in 0..n {
+        write!(writer, "[")?;
+        for j in 0..=i {''', new='''    for i in 2..n {
+        write!(writer, "[")?;
+        for j in 0..=i {''', expect={'C15': 'coverage of anti'}),
+]
